@@ -123,6 +123,9 @@ def plan(tier, seed):
         progs.append(pg.gen_program(rng, nsites=rng.randint(1, 2), nparams=rng.randint(0, 2), max_depth=1))
     for _ in range(n_rand):
         progs.append(pg.gen_program(rng, nsites=rng.randint(2, 8), max_depth=rng.choice([1, 2, 2, 3])))
+    for _ in range(150 if tier == "quick" else 1500):
+        # a flagged nested DAG that hands a defaulted parameter straight back, in every return shape
+        progs.append(pg.gen_program(rng, nsites=rng.randint(1, 3), nparams=rng.randint(1, 3), max_depth=rng.choice([1, 2]), focus="flagged-sub"))
     jobs = []
     for i, P in enumerate(progs):
         givens = [pg.gen_args(P, rng) for _ in range(3 if tier == "quick" else 4)]
